@@ -10,6 +10,7 @@ import (
 	"os"
 	"os/exec"
 	"path/filepath"
+	"strings"
 
 	"verif/lib/ev"
 	"verif/lib/schedrun"
@@ -73,6 +74,17 @@ func main() {
 		b := bound
 		if len(n) > 17 && n[:18] == "mesh3-lazy/2reader" || len(n) > 17 && n[:18] == "mesh2-lazy/2reader" {
 			b = 99 // small enough for the unbounded search
+		}
+		if strings.HasPrefix(n, "heightmap-disc/") {
+			// closed-form scenarios: the point is the worker count against the cell count, the interleavings of the
+			// grid updates are explored by the heightmap-spheres scenarios; 1 preemption for <= 3 workers, 0 above
+			b = 0
+			if strings.Contains(n, "/procs1/") || strings.Contains(n, "/procs2/") || strings.Contains(n, "/procs3/") {
+				b = 1
+			}
+			if r.Thorough() {
+				b++
+			}
 		}
 		jobs = append(jobs, schedrun.Job{Scenario: n, Bound: b, MaxExecs: 3000000})
 	}
